@@ -381,7 +381,7 @@ func (p *eparser) mul() *CExpr {
 	}
 }
 func (p *eparser) unary() *CExpr {
-	for _, op := range []string{"!", "-", "^", "*"} {
+	for _, op := range []string{"!", "-", "^", "*", "&"} {
 		if p.accept(op) {
 			return &CExpr{Kind: "un", Op: op, X: p.unary()}
 		}
@@ -749,7 +749,12 @@ func parseContractText(path, text, prefix string) (*ContractFile, error) {
 				}
 			}
 		}
-		if cl.Kind == "assert" {
+		positional := cl.Kind == "assert"
+		if (cl.Kind == "unfold" || cl.Kind == "use") && (strings.HasPrefix(cl.Text, "before \"") || strings.HasPrefix(cl.Text, "after \"")) {
+			// unfold|use before|after "statement text prefix" f(args): applied at that point
+			positional = true
+		}
+		if positional {
 			// assert before|after "statement text prefix" <expr>
 			fs := strings.SplitN(cl.Text, " ", 2)
 			if len(fs) != 2 || (fs[0] != "before" && fs[0] != "after") {
@@ -778,6 +783,9 @@ func parseContractText(path, text, prefix string) (*ContractFile, error) {
 				return fail(err)
 			}
 			cl.Where, cl.Marker, cl.Expr = fs[0], marker, e
+			if cl.Kind != "assert" {
+				cl.Args = []*CExpr{e}
+			}
 			cur.Clauses = append(cur.Clauses, cl)
 			continue
 		}
